@@ -1,6 +1,8 @@
 import GqlVerif.Driver.Decode
 import GqlVerif.Driver.Loop
 import GqlVerif.Model.Valid
+import GqlVerif.Model.Serde
+import GqlVerif.Model.EnumSpec
 open GqlVerif
 
 def errSexp : Err → Sexp
@@ -65,6 +67,10 @@ def handle (req : Sexp) : Sexp :=
       .list [.atom "c06", .atom kind, Sexp.mkBool (Valid.validDoc s true d), Sexp.mkBool (Valid.validDoc s false d)]
     | some (.error e), some _ => .list [.atom "schema-failed", errSexp e]
     | _, _ => bad "c06"
+  | .list [.atom "enum-wf", item] =>
+    match Item.ofSexp item with
+    | some (.gqlEnum _ _ _ vs ser de) => .list [.atom "ok", Sexp.mkBool (EnumSpec.tablesWf vs ser de)]
+    | _ => bad "enum-wf"
   | .list [.atom "gen", src, doc, .str text, opts, cases] =>
     match Decode.schemaSrc src, Decode.qdoc doc, Decode.options opts, Decode.caseFns cases with
     | some s, some d, some o, some cs =>
@@ -72,4 +78,32 @@ def handle (req : Sexp) : Sexp :=
     | _, _, _, _ => bad "gen"
   | _ => bad "unknown request"
 
-def main : IO Unit := runLoop handle
+/-- loaded module environments for the wire-level requests -/
+abbrev St := List (Nat × Env)
+
+def dSexp : Serde.D Json → Sexp
+  | .ok j => .list [.atom "ok", j.toSexp]
+  | .error (.mismatch w) => .list [.atom "err", .str w]
+  | .error (.unmodelled w) => .list [.atom "unmodelled", .str w]
+
+def handleS (st : St) (req : Sexp) : St × Sexp :=
+  match req with
+  | .list [.atom "env-set", id, .list items, .list externs] =>
+    match id.asNat?, items.mapM Item.ofSexp,
+          externs.mapM (fun x => match x with
+            | Sexp.list [Sexp.str p, t] => (RTy.ofSexp t).map (fun t => (p, t))
+            | _ => none) with
+    | some id, some items, some externs =>
+      ((id, { items := items, externs := externs }) :: st.filter (·.1 != id), .list [.atom "ok"])
+    | _, _, _ => (st, bad "env-set")
+  | .list [.atom "env-drop", id] =>
+    match id.asNat? with
+    | some id => (st.filter (·.1 != id), .list [.atom "ok"])
+    | none => (st, bad "env-drop")
+  | .list [.atom "rt", id, ty, j] =>
+    match id.asNat?.bind (fun id => st.find? (·.1 == id)), RTy.ofSexp ty, Json.ofSexp j with
+    | some (_, env), some ty, some j => (st, dSexp (Serde.roundtrip env ty j))
+    | _, _, _ => (st, bad "rt")
+  | other => (st, handle other)
+
+def main : IO Unit := runLoopS ([] : St) handleS
